@@ -380,6 +380,14 @@ def oracle(area, meta, scen):
             did = meta["ids"].get(name)
             if state[name] == "absent" and did is not None and (did in t["loc"] or any(r[0] == did for r in t["recs"])):
                 problems.append(f"interrupted insertion of {name}: not registered but the datastore has records of it")
+    if kind in ("remove", "unstore", "empty"):
+        # files go only after the commit that takes the dataset out of the datastore's location table: a dataset the reopened
+        # repository still lists as stored (and not as trashed) must still be readable
+        t0 = read_tables(area)
+        for name in targets:
+            did = meta["ids"][name]
+            if state[name].startswith("unreadable") and did in t0["loc"] and did not in t0["trash"]:
+                problems.append(f"interrupted {scen}: {name} is still registered and still recorded as stored (not trashed), but it is {state[name]}")
     if kind == "remove" and len({state[n] == "absent" for n in targets}) > 1:
         problems.append(f"interrupted removal is not all-or-nothing in the registry: {state}")
     if kind in ("remove", "unstore", "empty"):
